@@ -67,6 +67,11 @@ type PartitionLog struct {
 	// under l.mu by prepareFlush, cleared under l.mu by uploadFlush on commit or
 	// on the upload-failure reset.
 	flushingBatches []RecordBatch
+	// publishMu serializes onFlush callbacks; publishedLast is the highest last
+	// offset reported so far (valid when published is true).
+	publishMu     sync.Mutex
+	published     bool
+	publishedLast int64
 }
 
 type segmentRange struct {
@@ -261,9 +266,7 @@ func (l *PartitionLog) AppendBatch(ctx context.Context, batch RecordBatch) (*App
 		if err := l.uploadFlush(ctx, artifact); err != nil {
 			return nil, err
 		}
-		if l.onFlush != nil {
-			l.onFlush(ctx, artifact)
-		}
+		l.publish(ctx, artifact)
 	}
 	return result, nil
 }
@@ -329,10 +332,28 @@ func (l *PartitionLog) Flush(ctx context.Context) error {
 			}
 		}
 		if target != nil {
-			l.onFlush(ctx, target)
+			l.publish(ctx, target)
 		}
 	}
 	return nil
+}
+
+// publish reports a flushed range to the onFlush callback. The callbacks of
+// consecutive flushes can overtake each other between the segment commit and
+// the call; they are serialized here, and one that would move the reported end
+// offset backwards is dropped, so the published high watermark never regresses.
+func (l *PartitionLog) publish(ctx context.Context, target *SegmentArtifact) {
+	if l.onFlush == nil || target == nil {
+		return
+	}
+	l.publishMu.Lock()
+	defer l.publishMu.Unlock()
+	if l.published && target.LastOffset <= l.publishedLast {
+		return
+	}
+	l.published = true
+	l.publishedLast = target.LastOffset
+	l.onFlush(ctx, target)
 }
 
 // prepareFlush drains the buffer and builds a segment artifact under l.mu.
